@@ -87,4 +87,26 @@ theorem nbBytes128_spec (v : Nat) (hv : v < 2 ^ 112) :
 theorem hTsi_le (tsi : Nat) : hTsi tsi ≤ 1 := by
   unfold hTsi; omega
 
+/-- round trip of the TOI field for every TOI below 2^112 and every TSI, with the field length -/
+theorem roundtrip_full (toi tsi : Nat) (h : toi < 2 ^ 112) :
+    decode (encode toi tsi) = toi ∧
+      (encode toi tsi).bytes.length = 4 * (encode toi tsi).o + 2 * (encode toi tsi).h := by
+  obtain ⟨n, hn, hmem, hlt⟩ := nbBytes128_spec toi h
+  have hh := hTsi_le tsi
+  have hL : n ≤ n / 4 % 4 * 4 + max (hTsi tsi) (n / 2 % 2) * 2 ∧
+      n / 4 % 4 * 4 + max (hTsi tsi) (n / 2 % 2) * 2 ≤ 16 := by
+    simp only [List.mem_cons, List.not_mem_nil, or_false] at hmem
+    rcases hmem with rfl | rfl | rfl | rfl | rfl | rfl | rfl <;> omega
+  have key := roundtrip_len (o := n / 4 % 4) (hh := max (hTsi tsi) (n / 2 % 2)) toi
+    (n / 4 % 4 * 4 + max (hTsi tsi) (n / 2 % 2) * 2) hL.2
+    (Nat.lt_of_lt_of_le hlt (Nat.pow_le_pow_right (by decide) hL.1))
+  unfold encode
+  simp only [hn]
+  refine ⟨key.1, ?_⟩
+  rw [key.2]
+  omega
+
+theorem roundtrip_of_lt (toi tsi : Nat) (h : toi < 2 ^ 112) : decode (encode toi tsi) = toi :=
+  (roundtrip_full toi tsi h).1
+
 end Flute.ToiWire
